@@ -126,10 +126,14 @@ def mkPairs (soa : Option Name) : List Rec → Option (List Pair)
       else if !(Name.labelFromRaw l).isOk then none
       else (mkPairs soa rs).map fun ps => { label := l, data := r } :: ps
 
-/-- Switches for the repairs proposed in `repo-patches/C09-*.diff`.  `asIs` (all off) is the code as
-it is; every theorem about the current code is about `asIs`.  Turning one switch on gives the model of
-the code with that patch applied, which is how the finding classes are defined (`Cls*` below) and how
-the full-strength soundness theorems are stated for the repaired code. -/
+/-- One switch per repair of `repo-patches/C09-*.diff`.
+* `pinned` (all off) is the code at the pinned snapshot 0f3cca1;
+* `current` is **the code as it is now**: /repo e7e2ac8 (`apex`), cd83193 (`wild`), 6960cfe (`deleg`)
+  are applied, the wrap-around comparison and the Opt-Out handling are unchanged (open findings);
+  the driver runs `current` and every theorem "about the code" is about `current`;
+* `allFixed` is the target: all five repairs.
+The two open finding classes are defined by "the repair that turns this `Secure` of `current` into
+something else" (`classOf` below). -/
 structure Fixes where
   /-- remove the `(None, None, None) if query.name == soa ⇒ Secure` arm -/
   apex : Bool := false
@@ -144,7 +148,8 @@ structure Fixes where
   wild : Bool := false
   deriving DecidableEq, Repr, Inhabited
 
-def asIs : Fixes := {}
+def pinned : Fixes := {}
+def current : Fixes := { apex := true, deleg := true, wild := true }
 def allFixed : Fixes := { apex := true, wrap := true, optout := true, deleg := true, wild := true }
 
 /-- NS without SOA (a delegation as seen from the parent side) -/
@@ -344,23 +349,17 @@ def verifyNsec3 (q : Name) (qtype : Nat) (soa : Option Name) (rcode : Nat) (wl :
 
 end
 
-/-! ### classes of the recorded findings (decidable; mirrored by the harness)
+/-! ### classes of the open findings (decidable; mirrored by the harness)
 
-A Secure verdict of the code as it is belongs to class `f` when the code with the single repair `f`
-no longer says Secure on the same input. -/
+A Secure verdict of the code as it is (`current`) belongs to class `f` when the code with the repair
+`f` in addition no longer says Secure on the same input. -/
 
 section
 variable (H : Name → Bytes) (enc : Bytes → Bytes)
 
-def secureAsIs (q : Name) (qtype : Nat) (soa : Option Name) (rcode : Nat) (wl : Option Nat)
-    (recs : List Rec) (soft hard : Nat) : Bool :=
-  verifyNsec3 asIs H enc q qtype soa rcode wl recs soft hard == .secure
-
-/-- `Secure` as is, not `Secure` with repair `fx` -/
-def flippedBy (fx : Fixes) (q : Name) (qtype : Nat) (soa : Option Name) (rcode : Nat)
-    (wl : Option Nat) (recs : List Rec) (soft hard : Nat) : Bool :=
-  secureAsIs H enc q qtype soa rcode wl recs soft hard &&
-  verifyNsec3 fx H enc q qtype soa rcode wl recs soft hard != .secure
+def Fixes.or (a b : Fixes) : Fixes :=
+  { apex := a.apex || b.apex, wrap := a.wrap || b.wrap, optout := a.optout || b.optout,
+    deleg := a.deleg || b.deleg, wild := a.wild || b.wild }
 
 def fixApex : Fixes := { apex := true }
 def fixWrap : Fixes := { wrap := true }
@@ -368,40 +367,32 @@ def fixOptout : Fixes := { optout := true }
 def fixDeleg : Fixes := { deleg := true }
 def fixWild : Fixes := { wild := true }
 
-/-- the finding classes in the fixed order used for attribution -/
+def secureCurrent (q : Name) (qtype : Nat) (soa : Option Name) (rcode : Nat) (wl : Option Nat)
+    (recs : List Rec) (soft hard : Nat) : Bool :=
+  verifyNsec3 current H enc q qtype soa rcode wl recs soft hard == .secure
+
+/-- `Secure` for the code as it is, not `Secure` with repair `fx` in addition -/
+def flippedBy (fx : Fixes) (q : Name) (qtype : Nat) (soa : Option Name) (rcode : Nat)
+    (wl : Option Nat) (recs : List Rec) (soft hard : Nat) : Bool :=
+  secureCurrent H enc q qtype soa rcode wl recs soft hard &&
+  verifyNsec3 (current.or fx) H enc q qtype soa rcode wl recs soft hard != .secure
+
+/-- the open finding classes in the fixed order used for attribution -/
 def classList : List (String × Fixes) :=
-  [("apex-nodata-without-matching-nsec3", fixApex),
-   ("wraparound-nsec3-covers-every-hash", fixWrap),
-   ("wildcard-answer-accepted-on-qname-nsec3", fixWild),
-   ("optout-next-closer-accepted-as-secure", fixOptout),
-   ("ancestor-delegation-nsec3-accepted", fixDeleg)]
+  [("wraparound-nsec3-covers-every-hash", fixWrap),
+   ("optout-next-closer-accepted-as-secure", fixOptout)]
 
-def Fixes.or (a b : Fixes) : Fixes :=
-  { apex := a.apex || b.apex, wrap := a.wrap || b.wrap, optout := a.optout || b.optout,
-    deleg := a.deleg || b.deleg, wild := a.wild || b.wild }
-
-/-- ordered pairs `(i, j)`, `i` before `j` in `classList` -/
-def classPairs : List ((String × Fixes) × (String × Fixes)) :=
-  let rec go : List (String × Fixes) → List ((String × Fixes) × (String × Fixes))
-    | [] => []
-    | a :: rest => rest.map (fun b => (a, b)) ++ go rest
-  go classList
-
-/-- the class of a Secure verdict: the first single repair that flips it; else the first member of the
-first pair of repairs that flips it; `multi` when only more repairs together do; `-` when even the
-fully repaired code says Secure. -/
+/-- the class of a Secure verdict of `current`: the first single open repair that flips it; the first
+class when only both together do; `-` when even the fully repaired code says Secure. -/
 def classOf (q : Name) (qtype : Nat) (soa : Option Name) (rcode : Nat) (wl : Option Nat)
     (recs : List Rec) (soft hard : Nat) : String :=
-  if !secureAsIs H enc q qtype soa rcode wl recs soft hard then "-"
+  if !secureCurrent H enc q qtype soa rcode wl recs soft hard then "-"
   else
     match classList.find? (fun c => flippedBy H enc c.2 q qtype soa rcode wl recs soft hard) with
     | some c => c.1
     | none =>
-      match classPairs.find?
-          (fun p => flippedBy H enc (p.1.2.or p.2.2) q qtype soa rcode wl recs soft hard) with
-      | some p => p.1.1
-      | none =>
-        if flippedBy H enc allFixed q qtype soa rcode wl recs soft hard then "multi" else "-"
+      if flippedBy H enc allFixed q qtype soa rcode wl recs soft hard
+      then "wraparound-nsec3-covers-every-hash" else "-"
 
 end
 
